@@ -43,11 +43,17 @@ def kindOfIns : List (List Chunk) → String
   | (c :: _) :: _ => c.kind
   | _ => ""
 
-def restamp (out : String) (k : Kernel) : Kernel :=
+/-- stamp the output streams: data type and kind per output (`none`: the kind of the first input) -/
+def stampAll (kin : String) : List (String × Option String) → List (List Chunk) → List (List Chunk)
+  | _, [] => []
+  | [], s :: rest => s :: stampAll kin [] rest
+  | (n, k) :: ps, s :: rest => s.map (restampChunk n (k.getD kin)) :: stampAll kin ps rest
+
+def restamp (labels : List (String × Option String)) (k : Kernel) : Kernel :=
   { k with chunked := fun ins =>
       match k.chunked ins with
       | .error e => .error e
-      | .ok outs => .ok (outs.map fun s => s.map (restampChunk out (kindOfIns ins))) }
+      | .ok outs => .ok (stampAll (kindOfIns ins) labels outs) }
 
 theorem restamp_stream (out kind : String) : ∀ (s : List Chunk),
     rows (s.map (restampChunk out kind)) = rows s ∧ bounds (s.map (restampChunk out kind)) = bounds s ∧
@@ -65,7 +71,32 @@ theorem restamp_stream (out kind : String) : ∀ (s : List Chunk),
         exact this
       · exact i3 (fun y hy => h y (by simp [hy])) x hx
 
-theorem restamp_hom {k : Kernel} (out : String) (h : ChunkHom k) : ChunkHom (restamp out k) := by
+theorem stampAll_spec (kin : String) (R : Int × Int) :
+    ∀ (ps : List (String × Option String)) (ss : List (List Chunk)), StreamsOK R ss →
+      (stampAll kin ps ss).length = ss.length ∧ (stampAll kin ps ss).map rows = ss.map rows ∧
+        StreamsOK R (stampAll kin ps ss)
+  | _, [], _ => ⟨rfl, rfl, fun s hs => by simp [stampAll] at hs⟩
+  | [], s :: rest, h => by
+    obtain ⟨i1, i2, i3⟩ := stampAll_spec kin R [] rest (fun x hx => h x (by simp [hx]))
+    refine ⟨by simp [stampAll, i1], by simp [stampAll, i2], ?_⟩
+    intro x hx
+    simp only [stampAll, List.mem_cons] at hx
+    rcases hx with rfl | hx
+    · exact h _ (by simp)
+    · exact i3 x hx
+  | (n, k) :: ps, s :: rest, h => by
+    obtain ⟨i1, i2, i3⟩ := stampAll_spec kin R ps rest (fun x hx => h x (by simp [hx]))
+    obtain ⟨r1, r2, r3⟩ := restamp_stream n (k.getD kin) s
+    obtain ⟨hl0, hsp0⟩ := h s (by simp)
+    refine ⟨by simp [stampAll, i1], by simp [stampAll, i2, r1], ?_⟩
+    intro x hx
+    simp only [stampAll, List.mem_cons] at hx
+    rcases hx with rfl | hx
+    · exact ⟨lawAbiding_of (r3 hl0.all_ok) (by rw [adjacentB_of_bounds r2]; exact hl0.adjacent),
+        by rw [span_of_bounds r2]; exact hsp0⟩
+    · exact i3 x hx
+
+theorem restamp_hom {k : Kernel} (labels : List (String × Option String)) (h : ChunkHom k) : ChunkHom (restamp labels k) := by
   intro R ins outs hl hal hc
   simp only [restamp] at hc hl
   cases hk : k.chunked ins with
@@ -74,19 +105,8 @@ theorem restamp_hom {k : Kernel} (out : String) (h : ChunkHom k) : ChunkHom (res
     simp only [hk, Except.ok.injEq] at hc
     subst hc
     obtain ⟨h1, h2, h3⟩ := h R ins o hl hal hk
-    refine ⟨by simpa [restamp] using h1, ?_, ?_⟩
-    · intro s hs
-      simp only [List.mem_map] at hs
-      obtain ⟨s0, hs0, rfl⟩ := hs
-      obtain ⟨hl0, hsp0⟩ := h2 s0 hs0
-      obtain ⟨-, r2, r3⟩ := restamp_stream out (kindOfIns ins) s0
-      exact ⟨lawAbiding_of (r3 hl0.all_ok) (by rw [adjacentB_of_bounds r2]; exact hl0.adjacent),
-        by rw [span_of_bounds r2]; exact hsp0⟩
-    · simp only [restamp, List.map_map]
-      rw [← h3]
-      apply List.map_congr_left
-      intro s0 _
-      exact (restamp_stream out (kindOfIns ins) s0).1
+    obtain ⟨s1, s2, s3⟩ := stampAll_spec (kindOfIns ins) R labels o h2
+    exact ⟨by simpa [restamp, s1] using h1, s3, by rw [s2, h3]; rfl⟩
 
 namespace Vocab
 
@@ -125,24 +145,33 @@ theorem filterMap_gFilter (m r : Nat) (x : List Row) : x.filterMap (gFilter m r)
 def out0 (outs : List String) : String := match outs with | o :: _ => o | [] => ""
 def out1 (outs : List String) : String := match outs with | _ :: o :: _ => o | _ => ""
 
-/-- the kernel of one vocabulary kind -/
-def kernelOf : VKind → List String → Kernel
+/-- the kernel of one vocabulary kind, before the plugin stamps data type and kind on its output -/
+def rawKernelOf : VKind → List String → Kernel
   | .map c, outs => mapKernel (gMap c) (out0 outs)
   | .filter m r, outs => mapKernel (gFilter m r) (out0 outs)
   | .merge, outs => mergeKernel mergeId (out0 outs)
   | .multi c m r, outs => pairKernel (mapKernel (gMap c) (out0 outs)) (mapKernel (gFilter m r) (out1 outs))
   | .pairfirst c, outs => firstKernel (gMap c) (out0 outs)
   | .loop, outs => loopKernel loopId (out0 outs)
-  | .overlap w, outs => restamp (out0 outs) (overlapKernel (overlapWhole w) (w, w))
+  | .overlap w, _ => overlapKernel (overlapWhole w) (w, w)
   | .downchunk c, outs => downKernel (onePiece (gMap c) (out0 outs)) (gMap c)
   | .exhaust c, outs => exhaustKernel (exhaustWhole c) (out0 outs)
+
+/-- data type and data kind of the outputs: a filter defines a new kind (named after its output), everything else
+keeps the kind of its first dependency -/
+def labelsOf : VKind → List String → List (String × Option String)
+  | .filter _ _, outs => [(out0 outs, some (out0 outs))]
+  | .multi _ _ _, outs => [(out0 outs, none), (out1 outs, some (out1 outs))]
+  | _, outs => [(out0 outs, none)]
+
+/-- the kernel of one vocabulary kind -/
+def kernelOf (k : VKind) (outs : List String) : Kernel := restamp (labelsOf k outs) (rawKernelOf k outs)
 
 def isOverlap : VKind → Bool
   | .overlap _ => true
   | _ => false
 
-/-- every vocabulary kind except the overlap window is a chunk homomorphism, from first principles -/
-theorem kernelOf_hom (k : VKind) (outs : List String) (h : isOverlap k = false) : ChunkHom (kernelOf k outs) := by
+theorem rawKernelOf_hom (k : VKind) (outs : List String) (h : isOverlap k = false) : ChunkHom (rawKernelOf k outs) := by
   cases k with
   | map c => exact mapKernel_hom (gMap_ip c) _
   | filter m r => exact mapKernel_hom (gFilter_ip m r) _
@@ -155,6 +184,10 @@ theorem kernelOf_hom (k : VKind) (outs : List String) (h : isOverlap k = false) 
   | exhaust c =>
     exact exhaustKernel_hom (rangeLaw_of_map (f := fun all r => exhaustId c all.length r)
       (fun all r => by simp [exhaustId])) _
+
+/-- every vocabulary kind except the overlap window is a chunk homomorphism, from first principles -/
+theorem kernelOf_hom (k : VKind) (outs : List String) (h : isOverlap k = false) : ChunkHom (kernelOf k outs) :=
+  restamp_hom _ (rawKernelOf_hom k outs h)
 
 /-- the overlap window is one as soon as C09's theorem holds of its state machine -/
 theorem kernelOf_hom_overlap (w : Nat) (outs : List String)
@@ -169,12 +202,12 @@ theorem kernelOf_whole (k : VKind) (outs : List String) (ins : List (List Row)) 
   cases k with
   | map c =>
     match ins with
-    | [x] => simp [kernelOf, mapKernel, wholeOf, filterMap_gMap]
+    | [x] => simp [kernelOf, rawKernelOf, restamp, mapKernel, wholeOf, filterMap_gMap]
     | [] => rfl
     | _ :: _ :: _ => rfl
   | filter m r =>
     match ins with
-    | [x] => simp [kernelOf, mapKernel, wholeOf, filterMap_gFilter]
+    | [x] => simp [kernelOf, rawKernelOf, restamp, mapKernel, wholeOf, filterMap_gFilter]
     | [] => rfl
     | _ :: _ :: _ => rfl
   | merge =>
@@ -185,12 +218,12 @@ theorem kernelOf_whole (k : VKind) (outs : List String) (ins : List (List Row)) 
     | _ :: _ :: _ :: _ => rfl
   | multi c m r =>
     match ins with
-    | [x] => simp [kernelOf, pairKernel, mapKernel, wholeOf, filterMap_gMap, filterMap_gFilter]
+    | [x] => simp [kernelOf, rawKernelOf, restamp, pairKernel, mapKernel, wholeOf, filterMap_gMap, filterMap_gFilter]
     | [] => rfl
     | _ :: _ :: _ => rfl
   | pairfirst c =>
     match ins with
-    | [x, y] => simp [kernelOf, firstKernel, wholeOf, filterMap_gMap]
+    | [x, y] => simp [kernelOf, rawKernelOf, restamp, firstKernel, wholeOf, filterMap_gMap]
     | [] => rfl
     | [_] => rfl
     | _ :: _ :: _ :: _ => rfl
@@ -207,7 +240,7 @@ theorem kernelOf_whole (k : VKind) (outs : List String) (ins : List (List Row)) 
     | _ :: _ :: _ => rfl
   | downchunk c =>
     match ins with
-    | [x] => simp [kernelOf, downKernel, wholeOf, filterMap_gMap]
+    | [x] => simp [kernelOf, rawKernelOf, restamp, downKernel, wholeOf, filterMap_gMap]
     | [] => rfl
     | _ :: _ :: _ => rfl
   | exhaust c =>
